@@ -54,6 +54,7 @@ class Rig:
         self.sent = []           # (cur, dst hex|None, octets)
         self.entries = []        # (cur, entry)
         self.late = []           # answers the application gave outside any datagram's processing
+        self.learns = []         # (cur, station, device information) the application put into its cache
         self.in_app = False
         rig = self
         adapter = dev.nsap.local_adapter
@@ -559,6 +560,23 @@ def histories(ctx, rng, T, n):
 
 # ------------------------------------------------------------------ timed scripts, several devices in one process
 
+def make_iam(rig):
+    """an application that fills its device-information cache from the I-Ams it hears
+    (DeviceInfoCache.iam_device_info in do_IAmRequest, as applications that talk segmentation do)"""
+    app = rig.dev.app
+    stock = app.do_IAmRequest
+
+    def helper(apdu):
+        stock(apdu)
+        app.deviceInfoCache.iam_device_info(apdu)
+        a = apdu.pduSource
+        info = app.deviceInfoCache.get_device_info(a)
+        rig.learns.append((rig.cur, bytes(a.addrAddr).hex(),
+                           {"maxApdu": info.maxApduLengthAccepted, "seg": SEG_NAMES.index(info.segmentationSupported),
+                            "maxSegs": info.maxSegmentsAccepted, "maxNpdu": info.maxNpduLength}))
+    app.do_IAmRequest = helper
+
+
 DEFER = (0.1, 1.0, 2.9, 3.5)         # seconds, by invoke id modulo 4; the last one is beyond the application timeout
 
 
@@ -609,7 +627,7 @@ class World:
     FunctionTask (10 min), installed BEFORE anything arrives (they sit in the scheduler's heap in front of the
     transaction timers)."""
 
-    def __init__(self, Device, ndev=1, own_lans=False, housekeeping=False, password=None, deferred=False):
+    def __init__(self, Device, ndev=1, own_lans=False, housekeeping=False, password=None, deferred=False, iam=False):
         first = Device()
         self.devs = [first] + [Device(beside=first, address=C.DEVICE + k, own_lan=own_lans) for k in range(1, ndev)]
         self.rigs = [Rig(dev=d) for d in self.devs]
@@ -621,6 +639,9 @@ class World:
         if deferred:
             for d in self.devs:
                 make_deferred(d)
+        if iam:
+            for r in self.rigs:
+                make_iam(r)
         if housekeeping:
             # 1: a recurring task (5 min); 2: + a housekeeping FunctionTask (10 min); 3: + a second one (7 min)
             from bacpypes.task import RecurringTask, FunctionTask
@@ -662,6 +683,7 @@ class World:
             del r.sent[:]
             del r.entries[:]
             del r.late[:]
+            del r.learns[:]
         e0 = len(vt.errors)
         base = set(id(t) for (_w, t) in vt.pending())
         steps = [[] for _ in rigs]              # per device: what happened, in order
@@ -678,6 +700,7 @@ class World:
                         i = st["n"]
                         st["out"] = [[d, mask(o)] for (c, d, o) in r.sent if c == i and not is_unconf(o)]
                         st["entries"] = [e for (c, e) in r.entries if c == i]
+                        st["learn"] = [[a, info] for (c, a, info) in r.learns if c == i]
                 if steps[k]:
                     steps[k][-1]["sv"] = r.digest()
                     steps[k][-1]["dcc"] = dcc_code(r.dev.smap.dccEnableDisable)
@@ -761,8 +784,10 @@ def answers_of(entries):
 
 
 def script_ops(rec_dev):
-    ops = []
+    """-> (model requests, index of the request that answers each step)"""
+    ops, at = [], []
     for st in rec_dev["steps"]:
+        at.append(len(ops))
         if st["kind"] == "adv":
             ops.append({"op": "advance", "us": st["us"]})
         elif st["kind"] == "respond":
@@ -770,13 +795,17 @@ def script_ops(rec_dev):
         else:
             ops.append({"op": "recv", "src": "%02x" % st["src"], "bc": st["bc"], "hex": st["hex"],
                         "app": answers_of(st["entries"])})
+            for (a, info) in st.get("learn", []):
+                ops.append({"op": "learn", "src": a, "info": info})      # the application learned from an I-Am
+    at.append(len(ops))
     ops.append({"op": "quiesce"})
-    return ops
+    return ops, at
 
 
-def upload(text, inv, seg_size, win, svc=7):
-    """segments (NPCI in front) of an AtomicWriteFile(file 1, stream access, position 0, data := text)"""
-    body = wp_body(text)
+def upload(text, inv, seg_size, win, svc=7, body=None):
+    """segments (NPCI in front) of an AtomicWriteFile(file 1, stream access, position 0, data := text),
+    or of the given service parameters `body` of service `svc`"""
+    body = wp_body(text) if body is None else body
     parts = [body[i:i + seg_size] for i in range(0, len(body), seg_size)]
     out = []
     for i, part in enumerate(parts):
@@ -896,6 +925,50 @@ def scripts(ctx, rng, T, stream):
             sc = [(0,) + stray(66, 10) + (False, a), (0, 10, rp[:4] + bytes([66]) + rp[5:], False, b),
                   (1, 10, rp[:4] + bytes([66]) + rp[5:], False, b), (0, 11, rp[:4] + bytes([66]) + rp[5:], False, a)]
             out.append(({"ndev": 2}, sc, "two/stray-%d%d" % (a, b), {}))
+    elif stream == "iam":
+        # the application keeps a device-information cache from the I-Ams it hears: I-Am frames of the requesting
+        # station (same and changed capabilities) and of other stations at EVERY position of a segmented request
+        from bacpypes.apdu import IAmRequest, UnconfirmedRequestPDU
+
+        def iam(instance, maxapdu, seg):
+            r = IAmRequest(iAmDeviceIdentifier=("device", instance), maxAPDULengthAccepted=maxapdu,
+                           segmentationSupported=seg, vendorID=15)
+            x = UnconfirmedRequestPDU()
+            r.encode(x)
+            return b"\x01\x00" + bytes([0x10, 0x00]) + bytes(x.pduData)
+        kinds = [("dcc", T["dcc"][6:], 17, "simple", None), ("wp", T["wp"][6:], 15, "error", None),
+                 ("awf", None, 7, "complex", "iam upload " * 3), ("rpm", T["rpm"][6:], 14, "complex", None)]
+        pre = [[], [(0, 10, iam(10, 1024, "segmentedBoth"), False, 0)], [(0, 10, iam(10, 50, "noSegmentation"), False, 0)]]
+        mids = [(10, iam(10, 1024, "segmentedBoth")), (10, iam(10, 480, "segmentedTransmit")), (10, iam(10, 50, "noSegmentation")),
+                (11, iam(11, 206, "segmentedReceive"))]
+        for (kn, body, svc, want, text) in kinds:
+            segs = upload(text, 68, (2 if kn == "dcc" else 7) if body is not None else 12, 2, svc=svc, body=body)
+            n = len(segs)
+            for pi, p0 in enumerate(pre):
+                for mi, (mst, mfr) in enumerate(mids):
+                    if quick and not ((kn in ("dcc", "wp") and (pi + mi) % 2 == 0 and pi > 0) or (pi, mi) == (1, 1)):
+                        continue
+                    for pos in range(1, n):
+                        for gap in ((0, 1) if not quick else (pos % 2,)):
+                            sc = list(p0)
+                            for i, sg in enumerate(segs):
+                                if i == pos:
+                                    sc.append((gap, mst, mfr, bool((pos + mi) % 2), 0))
+                                sc.append((gap if i else (1 if p0 else 0), 10, sg, False, 0))
+                            sc.append((1, 10, iam(10, 1024, "segmentedBoth"), False, 0))
+                            sc.append((0, 11, rp[:4] + bytes([69]) + rp[5:], False, 0))
+                            out.append(({"ndev": 1, "iam": True}, sc, "iam/%s-p%d-m%d-at%d-g%d" % (kn, pi, mi, pos, gap),
+                                        {"upload": (0, 10, 68, text, n, 2, False, want)}))
+        # two devices in one process, both hearing the (broadcast) I-Ams
+        segs = upload(None, 68, 1, 2, svc=17, body=T["dcc"][6:])
+        for pos in range(1, len(segs)):
+            sc = [(0, 10, iam(10, 1024, "segmentedBoth"), True, 0)]
+            for i, sg in enumerate(segs):
+                if i == pos:
+                    sc.append((0, 10, iam(10, 480, "segmentedBoth"), True, 0))
+                    sc.append((0, 10, rp[:4] + bytes([68]) + rp[5:], False, 1))
+                sc.append((1 if i else 0, 10, sg, False, 0))
+            out.append(({"ndev": 2, "iam": True}, sc, "iam/two-at%d" % pos, {"upload": (0, 10, 68, None, len(segs), 2, False, "simple")}))
     elif stream == "async":
         # a gateway-style application answers LATER (0.1 / 1 / 2.9 s: within the application timeout; 3.5 s: too late)
         bv = lambda inv, prop=0x55: rp[:4] + bytes([inv]) + rp[5:7] + bytes.fromhex("01400001") + bytes([0x19, prop])
@@ -1019,7 +1092,7 @@ def script_shard(ctx, spec):
 
 def run_script(ctx, Device, stream, wcfg, sc, label, expect, model_ok):
     world = World(Device, wcfg.get("ndev", 1), wcfg.get("own_lans", False), wcfg.get("housekeeping", False),
-                  wcfg.get("password"), wcfg.get("deferred", False))
+                  wcfg.get("password"), wcfg.get("deferred", False), wcfg.get("iam", False))
     rec = world.run(sc)
     case = {"stream": "model/" + stream, "template": label, "world": wcfg,
             "script": [list(e[:2]) + [e[2].hex()] + list(e[3:]) if e[0] != "rearm" else ["rearm"] for e in sc],
@@ -1063,11 +1136,18 @@ def run_script(ctx, Device, stream, wcfg, sc, label, expect, model_ok):
             if kind == "confirmed" and k == j and not bc and i not in skip:
                 owed[(src, inv)] += 1
         got = collections.Counter()
+        segfirst = set()
         for (dst, o) in rd["sent"]:
             h = C.decode_apdu_header(bytes.fromhex(o))
             if h and h.get("type") in (2, 3, 5, 6) and not (h.get("seg") and h.get("seq")) and dst is not None:
-                # (aborts are not counted: a stray first segment is legitimately never answered)
-                got[(int(dst, 16), h.get("invoke"))] += 1
+                # (aborts are not counted: a stray first segment is legitimately never answered;
+                #  the retransmitted first segment of an unacknowledged segmented answer counts once)
+                key = (int(dst, 16), h.get("invoke"))
+                if h.get("seg"):
+                    if key in segfirst:
+                        continue
+                    segfirst.add(key)
+                got[key] += 1
         up = expect.get("upload")
         if up and up[0] == j:
             owed[(up[1], up[2])] += 1
@@ -1087,15 +1167,16 @@ def run_script(ctx, Device, stream, wcfg, sc, label, expect, model_ok):
                 j, sorted(owed.items()), sorted(got.items())), errors=rec["errors"])
     up = expect.get("upload")
     if up:
-        j, station, inv, text, nseg, win, clean = up
+        j, station, inv, text, nseg, win, clean = up[:7]
+        kind_want = up[7] if len(up) > 7 else "complex"
         rd = rec["devices"][j]
         asked = [e for st in rd["steps"] if st["kind"] == "recv" for e in st["entries"] if not e.get("own")]
         mine = [st for st in rd["steps"] if st["kind"] == "recv" and st["src"] == station and
                 (C.classify(bytes.fromhex(st["hex"])) == ("segment", inv))]
         execd = [e for st in mine for e in st["entries"]]
-        written = rd["description"].startswith(text)
-        if len(execd) != 1 or execd[0].get("k") != "complex" or not written:
-            ctx.fail("upload", case, "the %d-segment AtomicWriteFile was executed %d time(s) %r; file %s" % (
+        written = text is None or rd["description"].startswith(text)
+        if len(execd) != 1 or execd[0].get("k") != kind_want or not written:
+            ctx.fail("upload", case, "the %d-segment request was executed %d time(s) %r; file %s" % (
                 nseg, len(execd), [dict(e, hex=e.get("hex", "")[:16]) for e in execd[:2]], "written" if written else "NOT written"),
                 errors=rec["errors"])
         if clean:
@@ -1118,11 +1199,12 @@ def run_script(ctx, Device, stream, wcfg, sc, label, expect, model_ok):
         if rd["delivered"] != rd["expected"] or rd["late_after_script"]:
             ctx.count("model/skipped", "undelivered" if rd["delivered"] != rd["expected"] else "late-answer-after-script")
             continue
-        ops = [{"op": "reset", "cfg": rig.cfg()}] + script_ops(rd)
-        mrep = drv.ask(ops)[1:]
-        for r in mrep:
+        sops, at = script_ops(rd)
+        allrep = drv.ask([{"op": "reset", "cfg": rig.cfg()}] + sops)[1:]
+        for r in allrep:
             if r.get("r") != "ok":
                 raise core.Infra("model driver: %r" % (r,))
+        mrep = [allrep[i] for i in at]
         iv, mv = [], []
         for st, m in zip(rd["steps"], mrep):
             a = {"out": st["out"]}
@@ -1163,7 +1245,7 @@ def replay_script(ctx, case):
 
 # ------------------------------------------------------------------ one shard
 
-SCRIPT_STREAMS = ("slow", "long", "two", "async", "dccpw")
+SCRIPT_STREAMS = ("slow", "long", "two", "async", "dccpw", "iam")
 
 
 def shard(ctx, spec):
@@ -1485,6 +1567,7 @@ def run(ctx):
     sp = [("slow", [str(k), "3"], ok) for k in range(3)] + [("long", [str(k), "4"], ok) for k in range(4)]
     sp += [("two", [str(k), "3"], ok) for k in range(3)]
     sp += [("async", [str(k), "2"], ok) for k in range(2)] + [("dccpw", [str(k), "4"], ok) for k in range(4)]
+    sp += [("iam", [str(k), "4" if ctx.quick else "12"], ok) for k in range(4 if ctx.quick else 12)]
     # the longest shards first, all in one pool
     core.run_shards(ctx, "harness.c10_model", "shard", sp + specs(ctx))
 
